@@ -150,7 +150,12 @@ RunResult run(J const &plan) {
     bool ok = true; for (auto const &d : dims) if (d.periodic || d.n < 3) ok = false;
     if (ok) {
       std::string ws, ls, us;
-      for (auto &d : dims) { d.lower = d.lower + d.width; d.upper = d.upper - d.width; d.n -= 2; ws += " " + full(d.width); ls += " " + full(d.lower); us += " " + full(d.upper); d.n = (int)std::floor((d.upper - d.lower) / d.width + 0.5); }
+      // each dimension is either cut by one bin on both sides or left as the variable defines it (at least one is cut)
+      uint64_t pick = (uint64_t)plan.at("seed").as_int() ^ 0x9e3779b97f4a7c15ULL; size_t cut = 0, qd = 0;
+      std::vector<bool> change(dims.size());
+      for (size_t q = 0; q < dims.size(); q++) { change[q] = (pick >> (7 * q + 3)) & 1; if (change[q]) cut++; }
+      if (!cut) change[(pick >> 40) % dims.size()] = true;
+      for (auto &d : dims) { if (change[qd++]) { d.lower = d.lower + d.width; d.upper = d.upper - d.width; d.n -= 2; } ws += " " + full(d.width); ls += " " + full(d.lower); us += " " + full(d.upper); d.n = (int)std::floor((d.upper - d.lower) / d.width + 0.5); }
       custom_grid = "  histogramGrid {\n    width" + ws + "\n    lowerBoundary" + ls + "\n    upperBoundary" + us + "\n  }\n";
     }
   }
